@@ -231,6 +231,12 @@ def run(res: C.Result):
             res.fail(f"{c['crit']}:{sig}", f"criteria.evaluate raised {r['raised']} (finite inputs)", {"input": c, "observed": r})
             continue
         dist["verdicts"]["accept" if r["verdict"] else "reject"] += 1
+        if r.get("params_changed"):
+            res.fail(f"{c['crit']}:parameters-changed-by-evaluate", f"criteria.evaluate changed the simulation's {r['params_changed']}: the next trial is judged with other parameters than the user set",
+                     {"input": c, "observed": {x: r.get(x) for x in ("params_changed", "verdict", "verdict_again")}})
+        elif "raised_again" in r or r.get("verdict_again") != r["verdict"]:
+            res.fail(f"{c['crit']}:second-evaluation-differs", f"the same trial judged twice (same uniform number, nothing changed in between): {r['verdict']} then {r.get('verdict_again', r.get('raised_again'))}",
+                     {"input": c, "observed": {x: r.get(x) for x in ("verdict", "verdict_again", "raised_again")}})
         la = ln_A(c, consts, r)
         u = c["u"]
         # ---- direct oracle (60-digit arithmetic on the reported quantities), with the guard band
